@@ -1,6 +1,7 @@
 import SkgVerif.Lemmas.Kriging
 import SkgVerif.Lemmas.KrigeAlgebra
 import SkgVerif.Lemmas.KrigeBridge
+import SkgVerif.Gen.Source
 /-!
 # C07 — ordinary kriging returns the solution of the ordinary-kriging system
 -/
@@ -216,5 +217,39 @@ example : (krigeSolve 2 (fun _ _ => 1) (fun i => if i = 0 then 1/2 else 1) [10, 
 /-- non-vacuity of the end-to-end model: two observations, one target in range, one out of range -/
 example : (krigeTransform 5 1 2 (fun _ _ => 1) [10, 20] [([1, 2], [1/2, 1]), ([9, 8], [1, 1])]).z
     = [some (25/2), none] := by decide +kernel
+
+/-- the statements of `OrdinaryKriging._krige` the model transcribes, as they are in the source
+now: not-enough-neighbours test on the size of the selection, neighbours from `find_closest` with
+the variogram's range and `max_points`, zero corner, right-hand side `γ(d(p,·))` followed by 1,
+variance `Σ b_i λ_i + μ`, estimate `λ·z` -/
+theorem C07_source_krige : Gen.krigeSource =
+    [("min_points", "if idx.size < self._minp:\n    raise LessPointsError"),
+     ("neighbours", "idx = self.transform_coords_pair.find_closest(idx, self.range, self._maxp)"),
+     ("values", "values = self.values[idx]"),
+     ("corner", "a[-1, -1] = 0"),
+     ("rhs", "b = np.concatenate((_g, [1]))"),
+     ("weights", "_lambda = self._solve(a, b)"),
+     ("variance", "sigma = sum(b[:-1] * _lambda[:-1]) + _lambda[-1]"),
+     ("estimate", "Z = _lambda[:-1].dot(values)"),
+     ("return", "return (Z, sigma)")] := by rfl
+
+/-- neighbour search (`DistanceMethods.find_closest`): candidates `d ≤ max_dist` (dense) or the
+stored entries (sparse), cut to `N` only when there are more, after a *stable* sort -/
+theorem C07_source_find_closest : Gen.findClosestSource =
+    [("candidates", "ridx = np.array([k[1] for k in dists.todok().keys()]) | ridx = ridx[sorted_ridx][:N] | ridx = np.where(dists <= max_dist)[0] | ridx = np.arange(len(dists))"),
+     ("guard", "ridx.size > N"),
+     ("sort", "sorted_ridx = np.argsort(selected_dists, kind='stable')")] := by rfl
+
+/-- bookkeeping of `_estimator` / `transform`: the variance is stored at the cursor only for a
+successful target, the cursor advances on every path, NaN is the estimate of a failed target;
+`transform` re-initialises counters, buffer (NaN) and cursor -/
+theorem C07_source_bookkeeping :
+    Gen.estimatorSource =
+      [("cursor", "self.__sigma_index += 1"), ("cursor_position", "top"),
+       ("store", "self.sigma[self.__sigma_index] = sigma"), ("nan", "z = estimation | z = np.nan")] ∧
+    Gen.transformSource =
+      [("singular_error", "self.singular_error = 0"), ("no_points_error", "self.no_points_error = 0"),
+       ("sigma", "self.sigma = np.ones(len(x[0])) * np.nan"), ("cursor", "self.__sigma_index = 0")] :=
+  ⟨by rfl, by rfl⟩
 
 end Skg
